@@ -52,14 +52,14 @@ def plan(tier):
 
 
 def floors(tier):
-    k = 12 if tier == "thorough" else 3
+    k = 12 if tier == "thorough" else 1
     return {"expmv_calls": 150 * k, "eigs_calls": 80 * k, "lin_solver_calls": 50 * k,
             "expmv_judged": 120 * k, "eigs_pairs_judged": 80 * k, "lin_solver_res_judged": 50 * k,
             "eigs_complete_judged": 10 * k, "lin_solver_complete_judged": 10 * k,
             "happy_breakdowns": 5 * k, "sector_checks": 250 * k,
             "reach:expmv_reject": 1 * k, "reach:expmv_happy": 1 * k, "reach:expmv_ncv_max_branch": 1 * k,
             "reach:krylov_happy": 5 * k, "reach:lanczos": 20 * k, "reach:arnoldi": 20 * k,
-            "expmv_substepped": 10 * k, "expmv_zero_vector_rejected": 2 * k, "expmv_t0": 3 * k,
+            "expmv_substepped": 20 * k, "expmv_zero_vector_rejected": 2 * k, "expmv_t0": 3 * k,
             "eigs_zero_vector_rejected": 1 * k, "eigs_ritz_reference_compared": 20 * k,
             "eigs_variational_vs_start_checked": 20 * k, "expmv_normalized_judged": 50 * k}
 
@@ -485,6 +485,10 @@ def expm_oracle(P, t, vec):
             ex = t * lam
             if ex.real.max() > 600 or ex.real.min() < -600:
                 return None
+            # non-normal map: exp(tau H_m) of a Krylov projection is bounded by the numerical abscissa of tA, not by its spectrum;
+            # a trial step over the whole interval may overflow although the exact result is representable -> not judged either
+            if np.linalg.eigvalsh((t * M + np.conj(t * M).T) / 2).max() > 600:
+                return None
             E = sla.expm(t * M)
             exact = E @ vec
             normE = float(np.linalg.norm(E, 2))
@@ -552,7 +556,10 @@ def judge_expmv(ctx, P, params, out_vec, exact, kappa, label="expmv", vec=None):
 
 
 def draw_t(P, rng):
-    mag = 10 ** rng.uniform(-4, 2)
+    if rng.random() < 0.35:      # force the sub-stepping regime: |t| ||A|| between 10 and 1000
+        mag = 10 ** rng.uniform(1, 3) / P.nrm
+    else:
+        mag = 10 ** rng.uniform(-4, 2)
     mag = min(mag, 1000.0 / P.nrm)
     ph = rng.choice(("+", "-", "+i", "-i", "c", "c"))
     if ph == "c":
@@ -574,8 +581,10 @@ def call_expmv(ctx, P, yv, t, tol, ncv, hflag, normalize, wit):
     except ExpmvStuck:
         st = dict(R.stuck or {})
         over = st.get("m") is not None and st.get("ncv_max") is not None and st["m"] > st["ncv_max"]
+        om = st.get("omega")
+        nonfin = om is None or not (om == om and abs(om) != float("inf"))
         ctx.count("expmv_stuck")
-        ctx.violation("expmv:no-termination:controller-fixed-point" + (":m>ncv_max" if over else ""),
+        ctx.violation("expmv:no-termination:controller-fixed-point" + (":nonfinite-error-estimate" if nonfin else ":m>ncv_max" if over else ""),
                       f"expmv does not terminate: after a rejected step the controller state repeats forever "
                       f"(t_now={st.get('t_now')}, tau={st.get('tau')}, ncv={st.get('ncv')}, m={st.get('m')}, ncv_max={st.get('ncv_max')}, "
                       f"omega={st.get('omega')}); vector size {yv.size}, requested ncv={ncv}, tol={tol:g}, |t|*||A||={abs(t) * P.nrm:.3g}",
@@ -594,6 +603,15 @@ def call_expmv(ctx, P, yv, t, tol, ncv, hflag, normalize, wit):
         if "tau_opt" not in tb and "ncv_opt" not in tb:
             raise
         ctx.count("expmv_controller_arithmetic_failure")
+        if yv.size < min(30, P.d):
+            # second demonstrated mechanism: ncv_max = min(30, v.size) counts *stored* elements; with ncv_max = 1 the error estimate
+            # per unit time, t_out * h / tol, does not depend on tau, every step is rejected and tau shrinks until it underflows
+            ctx.violation("expmv:controller-arithmetic-failure:ncv_max-limited-by-stored-size",
+                          f"expmv raised {tb.strip().splitlines()[-1]} after shrinking the step to nothing: the start vector stores "
+                          f"{yv.size} element(s) of a {P.d}-dimensional sector and the Krylov dimension is capped at min(30, v.size); "
+                          f"requested ncv={ncv}, tol={tol:g}, |t|*||A||={abs(t) * P.nrm:.3g}",
+                          dict(wit, call_ncv=ncv, vector_size=int(yv.size), traceback=tb[-600:]))
+            return None
         ctx.violation("expmv:controller-arithmetic-failure:huge-error-estimate",
                       f"expmv raised {tb.strip().splitlines()[-1]} in its step-size controller for a problem whose exact result is "
                       f"representable; requested ncv={ncv}, tol={tol:g}, |t|*||A||={abs(t) * P.nrm:.3g}",
